@@ -432,7 +432,7 @@ func rulesC05(p *Prog, r *Report) {
 						return false, true
 					}
 				}
-				if a.IsCmp && a.Op == "IsPositive" && a.Call != nil && p.passesCall(a.Call.Call.Args[0], "MulInt") {
+				if a.IsCmp && a.Op == "IsPositive" && a.Call != nil && p.passesCall(a.Call.Call.Args[0], "MulInt") && ownShare(p, f, a.Call.Call.Args[0]) {
 					if a.Neg {
 						return false, true
 					}
@@ -460,7 +460,11 @@ func rulesC05(p *Prog, r *Report) {
 			}
 		}
 		n := 0
-		for _, c := range calls(fn) {
+		for _, vs := range p.virtualSites(fn, nil) { // a phase moved into a helper still counts
+			if vs.call == nil {
+				continue
+			}
+			c := vs.call
 			if !p.callIs(c, "QueueSendCoins") {
 				continue
 			}
@@ -579,6 +583,18 @@ func rulesC06(p *Prog, r *Report) {
 				if paramName(v) != "" {
 					continue // x = rx / y = ry : the last-share case, checked below
 				}
+				if u, isLoad := v.(*ssa.UnOp); isLoad && u.Op == token.MUL {
+					self := ""
+					switch a2 := u.X.(type) {
+					case *ssa.Alloc:
+						self = a2.Comment
+					case *ssa.FreeVar:
+						self = a2.Name()
+					}
+					if self == name {
+						continue // "return x, y" with named results stores x into x
+					}
+				}
 				r.Instance("R06.2")
 				construct := fmt.Sprintf("%s result %s", fname(wd), name)
 				got := p.roundDir(v)
@@ -595,11 +611,15 @@ func rulesC06(p *Prog, r *Report) {
 		if len(wd.Blocks) > 0 {
 			if ifi, ok := wd.Blocks[0].Instrs[len(wd.Blocks[0].Instrs)-1].(*ssa.If); ok {
 				a := p.Atom(ifi.Cond)
-				if a.IsCmp && a.Op == "Equal" && !a.Neg {
+				if a.IsCmp && a.Op == "Equal" {
 					nx, ny := paramName(a.X), paramName(a.Y)
 					if (nx == "pc" && ny == "ps") || (nx == "ps" && ny == "pc") {
-						// true successor returns rx, ry
-						for _, in := range wd.Blocks[0].Succs[0].Instrs {
+						// the successor taken when pc == ps returns rx, ry
+						lastShare := wd.Blocks[0].Succs[0]
+						if a.Neg {
+							lastShare = wd.Blocks[0].Succs[1]
+						}
+						for _, in := range lastShare.Instrs {
 							if rt, ok := in.(*ssa.Return); ok && len(rt.Results) == 2 {
 								if paramName(rt.Results[0]) == "rx" && paramName(rt.Results[1]) == "ry" {
 									okLast = true
@@ -610,7 +630,7 @@ func rulesC06(p *Prog, r *Report) {
 						if !okLast {
 							sx, sy := false, false
 							// the assignments x = rx, y = ry must sit in the taken branch of that test
-							then := wd.Blocks[0].Succs[0]
+							then := lastShare
 							for _, in := range then.Instrs {
 								if s2, ok := in.(*ssa.Store); ok {
 									tgt := ""
@@ -654,7 +674,7 @@ func rulesC06(p *Prog, r *Report) {
 				}
 				for _, a := range amts {
 					ok := false
-					for _, o := range p.DeepOrigins(a) {
+					for _, o := range p.UpOrigins(p.DeepOrigins(a), 0) { // inside a settlement helper the amounts are parameters
 						if o.Kind == "call" && calleeShortName(&o.Call.Call) == ammName {
 							for _, i := range idxs {
 								if o.Index == i {
@@ -669,7 +689,11 @@ func rulesC06(p *Prog, r *Report) {
 				}
 				return true
 			}
-			for _, c := range calls(fn) {
+			for _, vs := range p.virtualSites(fn, nil) {
+				if vs.call == nil {
+					continue
+				}
+				c := vs.call
 				if be := bankEffect(c); be != nil && be.Op == "Mint" {
 					r.Instance("R06.3")
 					if fromAmm(be.Coins, wantIdx["mint"]) {
@@ -684,7 +708,7 @@ func rulesC06(p *Prog, r *Report) {
 						continue
 					}
 					// transfers between escrow/reserve and the user
-					if _, toReserve := isCallNamed(args[1], "GetReserveAddress"); toReserve {
+					if _, toReserve := isCallNamed(args[1], "GetReserveAddress"); toReserve || p.upIsCall(args[1], "GetReserveAddress") {
 						r.Instance("R06.3")
 						if fromAmm(args[2], wantIdx["accepted"]) {
 							r.OK("R06.3", fname(fn)+" accepted coins", "are the accepted amounts returned by amm."+ammName, p.instrPos(c))
@@ -692,7 +716,7 @@ func rulesC06(p *Prog, r *Report) {
 							r.Fail("R06.3", fname(fn)+" accepted coins", "the coins moved into the reserve are not the accepted amounts computed by amm."+ammName, p.instrPos(c), nil)
 						}
 					}
-					if _, fromReserve := isCallNamed(args[0], "GetReserveAddress"); fromReserve {
+					if _, fromReserve := isCallNamed(args[0], "GetReserveAddress"); fromReserve || p.upIsCall(args[0], "GetReserveAddress") {
 						r.Instance("R06.3")
 						if fromAmm(args[2], wantIdx["withdrawn"]) {
 							r.OK("R06.3", fname(fn)+" withdrawn coins", "are the amounts returned by amm."+ammName, p.instrPos(c))
@@ -703,7 +727,7 @@ func rulesC06(p *Prog, r *Report) {
 				}
 				if be := bankEffect(c); be != nil && be.Op == "Burn" {
 					r.Instance("R06.3")
-					if p.fromRecordFieldsLoose(be.Coins, map[string]bool{"WithdrawRequest": true}, map[string]bool{"PoolCoin": true}) {
+					if p.fromRecordFieldsLoose(be.Coins, map[string]bool{"WithdrawRequest": true}, map[string]bool{"PoolCoin": true}) || p.upFromRecordField(be.Coins, "WithdrawRequest", "PoolCoin") {
 						r.OK("R06.3", fname(fn)+" burnt shares", "are the request's own pool coin", p.instrPos(c))
 					} else {
 						r.Fail("R06.3", fname(fn)+" burnt shares", "the pool coins burnt are not the withdrawn request's own pool coin", p.instrPos(c), nil)
@@ -734,7 +758,7 @@ func rulesC06(p *Prog, r *Report) {
 					}
 					hit := false
 					for _, o := range p.Origins(args[i]) {
-						if o.Kind == "call" && p.callIs(o.Call, want) {
+						if o.Kind == "call" && (p.callIs(o.Call, want) || p.isPoolCoinSupplyRead(o)) {
 							hit = true
 						}
 					}
@@ -754,14 +778,20 @@ func rulesC06(p *Prog, r *Report) {
 			r.Instance("R06.3")
 			burn := map[*ssa.BasicBlock]bool{}
 			var pays []*ssa.BasicBlock
-			for _, c := range calls(ew) {
-				if be := bankEffect(c); be != nil && be.Op == "Burn" {
-					burn[c.Block()] = true
+			for _, vs := range p.virtualSites(ew, nil) {
+				if vs.call == nil {
+					continue
+				}
+				c := vs.call
+				if be := bankEffect(c); be != nil && be.Op == "Burn" && vs.must {
+					burn[vs.anchor.Block()] = true
 				}
 				if p.callIs(c, "QueueSendCoins") {
 					if a := callArgs(c); len(a) >= 3 {
 						if _, fromReserve := isCallNamed(a[0], "GetReserveAddress"); fromReserve {
-							pays = append(pays, c.Block())
+							pays = append(pays, vs.anchor.Block())
+						} else if p.upIsCall(a[0], "GetReserveAddress") {
+							pays = append(pays, vs.anchor.Block())
 						}
 					}
 				}
@@ -836,4 +866,107 @@ func flowsToPhi(mp, ph *ssa.Phi, l *Loop) bool {
 		return false
 	}
 	return rec(mp, 0)
+}
+
+// ownShare: the integer multiplied by the price in v (price.MulInt(x)...) is not merely a
+// parameter of the function (the group's total): it comes from a per-order lookup or a value
+// computed in the loop.
+func ownShare(p *Prog, f *ssa.Function, v ssa.Value) bool {
+	var mul *ssa.Call
+	seen := map[ssa.Value]bool{}
+	var rec func(v ssa.Value, d int)
+	rec = func(v ssa.Value, d int) {
+		if v == nil || seen[v] || d > 12 || mul != nil {
+			return
+		}
+		seen[v] = true
+		switch x := v.(type) {
+		case *ssa.Call:
+			if calleeShortName(&x.Call) == "MulInt" {
+				mul = x
+				return
+			}
+			for _, a := range x.Call.Args {
+				rec(a, d+1)
+			}
+		case *ssa.Phi:
+			for _, e := range x.Edges {
+				rec(e, d+1)
+			}
+		case *ssa.UnOp:
+			rec(x.X, d+1)
+		case *ssa.Extract:
+			rec(x.Tuple, d+1)
+		}
+	}
+	rec(v, 0)
+	if mul == nil || len(mul.Call.Args) < 2 {
+		return false
+	}
+	os := p.DeepOrigins(mul.Call.Args[1])
+	if len(os) == 0 {
+		return false
+	}
+	for _, o := range os {
+		if pr, isP := o.Val.(*ssa.Parameter); isP && o.Kind == "param" && pr.Parent() == f && len(o.Path) == 0 {
+			continue
+		}
+		if o.Kind == "const" {
+			continue
+		}
+		return true
+	}
+	return false
+}
+
+// upFromRecordField: some origin of v, followed through helper parameters to the call sites,
+// is field `field` of a record of type typ.
+func (p *Prog) upFromRecordField(v ssa.Value, typ, field string) bool {
+	amts, _ := p.coinParts(v)
+	vals := amts
+	if len(vals) == 0 {
+		vals = []ssa.Value{v}
+	}
+	for _, a := range vals {
+		for _, o := range p.UpOrigins(p.DeepOrigins(a), 0) {
+			for i := range o.Path {
+				if o.Path[i] == field {
+					sub := o
+					sub.Path = o.Path[:i+1]
+					if pathBaseTypeName(sub) == typ {
+						return true
+					}
+				}
+			}
+		}
+	}
+	return false
+}
+
+// upIsCall: v (followed through helper parameters) is the result of a call named name.
+func (p *Prog) upIsCall(v ssa.Value, name string) bool {
+	for _, o := range p.UpOrigins(p.Origins(v), 0) {
+		if o.Kind == "call" && p.callIs(o.Call, name) {
+			return true
+		}
+	}
+	return false
+}
+
+// isPoolCoinSupplyRead: the origin is the bank supply of a pool's coin (GetPoolCoinSupply
+// written out: bank.GetSupply(ctx, pool.PoolCoinDenom).Amount).
+func (p *Prog) isPoolCoinSupplyRead(o Origin) bool {
+	if o.Kind != "call" || !p.callIs(o.Call, "GetSupply") || len(o.Path) == 0 || o.Path[len(o.Path)-1] != "Amount" {
+		return false
+	}
+	args := callArgs(o.Call)
+	if len(args) < 2 {
+		return false
+	}
+	for _, d := range p.Origins(args[1]) {
+		if len(d.Path) > 0 && d.Path[len(d.Path)-1] == "PoolCoinDenom" {
+			return true
+		}
+	}
+	return false
 }
